@@ -79,3 +79,7 @@ CLAIMS["C25"] = dict(level="exploration",
     technique="exhaustive enumeration of every negotiable (version, suite) x traffic shapes (write sizes at record boundaries, read buffers, key-update positions) and of every single-byte flip / truncation of small records in both directions",
     text="For every (version, suite) pair the utls server negotiates, both directions, all 1-2 write sequences over boundary sizes, 4 read-buffer sizes and 5 key-update placements must deliver exactly the written bytes; every byte position of the records of a 5- and a 20-byte write is flipped (two masks) and every truncation applied, and the receiver must error and return only a prefix. Weak CBC suites are exercised on forged connections.",
     note="Single-suite custom specs pin the suite; tampering granularity is one transport write; weak CBC suites are not negotiable with any server in the sandbox.")
+CLAIMS["C17"] = dict(level="exploration",
+    technique="exhaustive enumeration of TLS 1.3 clients x every listed-but-unshared classical group x cookie sizes x HRR kinds (valid and four invalid forms) using a hooked, self-consistent server",
+    text="For every TLS 1.3 client and every classical group it lists without a share the server is forced (verif hook) to request that group, with cookies of 0/1/32/255/1024 bytes added to the HRR before it enters the server transcript: CH2 must equal CH1 extension by extension except key_share (one fresh share of the requested group), the echoed cookie and padding, and the handshake must complete; HRRs selecting an unlisted group, an already-shared group, nothing at all, or a second HRR must be refused without another ClientHello.",
+    note="Server = utls Server with hooks H1/H2; completion is required for cookie-less HRRs only (the server refuses a cookie in CH2); cookie insertion index observed, not enumerated.")
